@@ -28,6 +28,9 @@ const c17Rule = "DNS / mDNS / NBNS messages serialised by an independent builder
 type c17Case struct {
 	Data drv.Hex `json:"data"` // DNS payload
 	Kind string  `json:"kind"` // dns | mdns | nbns | malformed:<class>
+	// dns: a later response to the same question with further records; the stored entry must then hold the
+	// records of both responses
+	Second drv.Hex `json:"second,omitempty"`
 }
 
 var c17Sess *packet.Session
@@ -251,6 +254,55 @@ func c17RunDNS(tb drv.TB, rec *drv.Rec, sub string, c c17Case) {
 	if !cmp("ProcessDNS result", got) || !cmp("DNSFind", found) {
 		return
 	}
+	if len(c.Second) > 0 && len(c.Second) <= 1400 {
+		want2 := c17Reference(c.Second)
+		if want2.err == nil && want2.qname == want.qname {
+			n2 := copy(buf, c17Frame(w, 53, 40000, w.Clients[0], c.Second))
+			var gerr2 error
+			if p, sig, st := drv.Catch(func() {
+				fr, perr := s.Parse(buf[:n2])
+				if perr == nil && fr.PayloadID == packet.PayloadDNS {
+					_, gerr2 = h.ProcessDNS(fr)
+				}
+			}); p != nil {
+				rec.Violation(tb, sub, sig, c, "ProcessDNS of the second response panicked: %v\n%s", p, st)
+				return
+			}
+			if gerr2 != nil {
+				fail("c17-dns-rejected", "well-formed second response rejected: %v", gerr2)
+				return
+			}
+			e := h.DNSFind(want.qname)
+			missing := ""
+			for _, ws := range []c17Expect{want, want2} {
+				for k := range ws.a4 {
+					if _, ok := e.IP4Records[k]; !ok {
+						missing += fmt.Sprintf(" A %v", k)
+					}
+				}
+				for k := range ws.a6 {
+					if _, ok := e.IP6Records[k]; !ok {
+						missing += fmt.Sprintf(" AAAA %v", k)
+					}
+				}
+				for k := range ws.cname {
+					if _, ok := e.CNameRecords[k]; !ok {
+						missing += fmt.Sprintf(" CNAME %q", k)
+					}
+				}
+				for k := range ws.ptr {
+					if _, ok := e.PTRRecords[k]; !ok {
+						missing += fmt.Sprintf(" PTR %q", k)
+					}
+				}
+			}
+			if missing != "" {
+				fail("c17-dns-second-response-records-lost", "after a second response to the same question the stored entry lacks:%s", missing)
+				return
+			}
+			rec.Class("dns: second response to the same question merged")
+		}
+	}
 	// second independent reader of the same bytes (guards the builder)
 	var p dnsmessage.Parser
 	if _, err := p.Start(c.Data); err == nil {
@@ -269,6 +321,10 @@ func c17RunDNS(tb drv.TB, rec *drv.Rec, sub string, c c17Case) {
 type c17MDNS struct {
 	Data drv.Hex `json:"data"`
 	MAC  drv.Hex `json:"mac"`
+	// an earlier, different response (another transaction id, or the same id from another station) handled by
+	// the same handler first: it must not change what is learnt from Data
+	Prior    drv.Hex `json:"prior,omitempty"`
+	PriorMAC drv.Hex `json:"prior_mac,omitempty"`
 }
 
 func c17RunMDNS(tb drv.TB, rec *drv.Rec, sub string, c c17MDNS) {
@@ -289,6 +345,21 @@ func c17RunMDNS(tb drv.TB, rec *drv.Rec, sub string, c c17MDNS) {
 	n := copy(buf, fb)
 	var ip4, ip6 []packet.IPNameEntry
 	var gerr error
+	if len(c.Prior) >= 2 && len(c.Prior) <= 1400 && len(c.Data) >= 2 && (!bytes.Equal(c.Prior[:2], c.Data[:2]) || !bytes.Equal(c.PriorMAC, c.MAC)) {
+		var pm ref.MAC
+		copy(pm[:], c.PriorMAC)
+		pn := copy(buf, c17Frame(w, 5353, 5353, pm, c.Prior))
+		if p, sig, st := drv.Catch(func() {
+			if fr, perr := s.Parse(buf[:pn]); perr == nil && fr.PayloadID == packet.PayloadMDNS {
+				h.ProcessMDNS(fr)
+			}
+		}); p != nil {
+			rec.Violation(tb, sub, sig, c, "ProcessMDNS of the earlier response panicked: %v\n%s", p, st)
+			return
+		}
+		rec.Class(fmt.Sprintf("mdns: after an earlier response, same station=%v same id high byte=%v", bytes.Equal(c.PriorMAC, c.MAC), c.Prior[0] == c.Data[0]))
+		n = copy(buf, fb)
+	}
 	if p, sig, st := drv.Catch(func() {
 		fr, perr := s.Parse(buf[:n])
 		if perr != nil || fr.PayloadID != packet.PayloadMDNS {
@@ -483,7 +554,7 @@ type c17Updates struct {
 
 func genNameEntry(t *rapid.T, l string) packet.NameEntry {
 	f := func(k string) string {
-		return rapid.SampledFrom([]string{"", "", "x", "y", "host-1", "Apple"}).Draw(t, l+k)
+		return rapid.SampledFrom([]string{"", "", "x", "y", "host-1", "Apple", "x.", ".", "printer.example.com.", " x", "X", "host-1 ", "\x00"}).Draw(t, l+k)
 	}
 	return packet.NameEntry{Type: rapid.SampledFrom([]string{"", "mdns", "dhcp4"}).Draw(t, l+"type"), Name: f("name"), Model: f("model"), Manufacturer: f("manuf"), OS: f("os")}
 }
@@ -661,7 +732,18 @@ func TestC17(t *testing.T) {
 		mode := rapid.IntRange(0, 2).Draw(t, "compress")
 		b, ptrs, hops := m.Encode(mode)
 		rec.Class(fmt.Sprintf("dns compression=%d pointers>0=%v chain>=2=%v", mode, ptrs > 0, hops >= 2))
-		return c17Case{Data: b, Kind: "dns"}
+		c := c17Case{Data: b, Kind: "dns"}
+		if rapid.IntRange(0, 2).Draw(t, "second") == 0 && len(m.Questions) == 1 {
+			m2 := gen.DNSMsg(t, gen.DNSOptions{Response: true})
+			m2.Questions = m.Questions
+			for i := range m2.Answers {
+				if m2.Answers[i].Type == 12 {
+					m2.Answers[i].Name = ref.Name{fmt.Sprint(rapid.IntRange(0, 255).Draw(t, "d2")), "2", "0", "10", "in-addr", "arpa"}
+				}
+			}
+			c.Second, _, _ = m2.Encode(mode)
+		}
+		return c
 	}, func(tb drv.TB, c c17Case) { c17RunDNS(tb, rec, "dns", c) })
 
 	drv.Prop(t, rec, "dns-malformed", 10000, 200000, c17Malformed,
@@ -671,7 +753,22 @@ func TestC17(t *testing.T) {
 		m := gen.DNSMsg(t, gen.DNSOptions{MDNS: true, Response: rapid.IntRange(0, 4).Draw(t, "resp") != 0})
 		b, _, _ := m.Encode(rapid.SampledFrom([]int{ref.NoCompression, ref.OwnerOnly, ref.SuffixPointers}).Draw(t, "compress"))
 		mac := w.UnicastMAC().Draw(t, "mac")
-		return c17MDNS{Data: b, MAC: mac[:]}
+		c := c17MDNS{Data: b, MAC: mac[:]}
+		if rapid.IntRange(0, 2).Draw(t, "prior") == 0 && len(b) >= 2 {
+			m0 := gen.DNSMsg(t, gen.DNSOptions{MDNS: true, Response: true})
+			p, _, _ := m0.Encode(ref.OwnerOnly)
+			if len(p) >= 2 {
+				d := rapid.SampledFrom([]uint16{1, 2, 0x80, 0xff, 0x100, 0x8000, 0}).Draw(t, "id delta")
+				id := (uint16(b[0])<<8 | uint16(b[1])) ^ d
+				p[0], p[1] = byte(id>>8), byte(id)
+				c.Prior, c.PriorMAC = p, mac[:]
+				if d == 0 {
+					other := w.UnicastMAC().Draw(t, "prior mac")
+					c.PriorMAC = other[:]
+				}
+			}
+		}
+		return c
 	}, func(tb drv.TB, c c17MDNS) { c17RunMDNS(tb, rec, "mdns", c) })
 
 	drv.Prop(t, rec, "nbns", 10000, 200000, func(t *rapid.T) c17NBNS {
